@@ -23,10 +23,18 @@ def model_eval(ctx, kinds, cases):
         t += "Definition o2n (o : option bool) : N := match o with Some true => 1 | Some false => 0 | None => 2 end.\n"
         t += "Definition b2n (b : bool) : N := if b then 1 else 0.\n"
         for n in group:
-            lst = "; ".join("[" + ";".join(str(x) for x in b) + "]" for b in by_n[n])
             f = ("dfa_run tbl_%d acc_%d s" % (n, n)) if kinds[n] == "dfa" else ("veval v_%d s" % n)
             t += 'Goal True. idtac "@@N %d". Abort.\n' % n
-            t += "Eval vm_compute in map (fun s => (o2n (%s), b2n (matchb (rx_sem rx_%d) s))) [%s].\n" % (f, n, lst)
+            # several Evals of at most 800 strings / 250 kB each: one list literal of some MB overflows coqc's stack
+            items = ["[" + ";".join(str(x) for x in b) + "]" for b in by_n[n]]
+            i = 0
+            while i < len(items):
+                j, size = i, 0
+                while j < len(items) and j - i < 800 and (j == i or size + len(items[j]) < 250000):
+                    size += len(items[j]) + 2
+                    j += 1
+                t += "Eval vm_compute in map (fun s => (o2n (%s), b2n (matchb (rx_sem rx_%d) s))) [%s].\n" % (f, n, "; ".join(items[i:j]))
+                i = j
         rc, out, dt = lib.coq_eval("c19_cases_%d" % k, t, timeout=900)
         r = {}
         if rc != 0:
